@@ -1,12 +1,333 @@
 """C09 -- tree transformations preserve tips, topology and path lengths.
 
-No proof tier: ``PhyloNode`` operations are recursive mutations of a parent/child heap; a deductive proof needs
-separation-logic style ownership and inductive predicates, which pyvc does not have (DESIGN.md section 7).
-Bounded tier only (bounded/C09.py); level = exploration, proved = 0."""
+Proof tier (thin): ``TreeNode.unrooted`` -- the collapse of a root with fewer than three children, for children
+lists and grandchildren lists of ANY length and all positive real branch lengths.  Nodes are abstract objects; the
+subtree below a child or grandchild is handled only through ``deepcopy`` (assumed contract: a fresh node with the
+same branch length standing for an equal copy of the subtree), so the argument is one level of the induction over
+tree depth and needs no heap reasoning.  Proved, per shape of the root:
+
+  * >= 3 children: the new root's children are the copies of the old ones, in order, lengths unchanged;
+  * 2 children, the first one with children is collapsed: its children's copies take its place, the copy of the other
+    child carries the sum of the two root-edge lengths, nothing else changes;
+  * 1 child with children: its children's copies become the root's children;
+  * and from these, for generic positions: every path length between two subtrees hanging below the old root equals
+    the path length between their copies below the new root (the lemma the property states), by linear arithmetic.
+
+Everything else (re-rooting by ``unrooted_deepcopy``, pruning, newick / JSON round trips, distances) is recursive
+heap mutation or string processing and stays with the bounded tier (bounded/C09.py)."""
+from __future__ import annotations
+
+import z3
+
+from pyvc import extract
+from pyvc.harness import cover_thunk, smt_thunk
+from pyvc.loops import LoopHooks, SymSeq, loop_nodes
+from pyvc.objects import ClassHooks
+from pyvc.symex import Engine, Opaque, Rec, Unsupported, is_sym
+
+FILE = "cogent3/core/tree.py"
+I, R_, B = z3.IntSort(), z3.RealSort(), z3.BoolSort()
+Node = z3.DeclareSort("Node")
+COPY = z3.Function("copy", Node, Node)                 # deepcopy of the subtree at a node (fresh node)
+KID = z3.Function("kid", Node, I, Node)                # k-th child
+NK = z3.Function("n_kids", Node, I)
+LEN0 = z3.Function("length0", Node, R_)                # branch length before the call
+PAR = z3.Function("parent", Node, Node)
+IDX = z3.Function("index_in_parent", Node, I)
+DEPTH = z3.Function("depth", Node, I)
+# the lengths of the copies are kept in one array keyed by the ORIGINAL node: LENC[u] = length of copy(u)
+
+
+class KidsSeq(SymSeq):
+    def __init__(self, d):
+        self.d, self.arr, self.length, self.name = d, None, NK(d), "children"
+
+    def at(self, i):
+        return KID(self.d, i if is_sym(i) else z3.IntVal(i))
+
+
+class TreeHooks(LoopHooks, ClassHooks):
+    def __init__(self, funcs, specs):
+        ClassHooks.__init__(self, funcs, set())
+        self.loop_specs = specs
+        self.fn_nodes = funcs
+
+    @staticmethod
+    def _copy_of(obj):
+        return obj.arg(0) if z3.is_app(obj) and obj.decl().name() == "copy" else None
+
+    def get_attr(self, eng, obj, attr):
+        if is_sym(obj) and obj.sort() == Node:
+            if attr == "children":
+                return KidsSeq(obj)
+            if attr == "length":
+                u = self._copy_of(obj)
+                return LEN0(obj) if u is None else z3.Select(eng.state["LENC"], u)
+        return super().get_attr(eng, obj, attr)
+
+    def set_attr(self, eng, obj, attr, val):
+        if is_sym(obj) and obj.sort() == Node and attr == "length":
+            u = self._copy_of(obj)
+            if u is None:
+                raise Unsupported("length of an original node is assigned")     # the receiver must not be modified
+            v = val if is_sym(val) else z3.RealVal(val)
+            eng.state["LENC"] = z3.Store(eng.state["LENC"], u, v)
+            return
+        return super().set_attr(eng, obj, attr, val)
+
+    def call_method(self, eng, obj, meth, args, kw, env):
+        if is_sym(obj) and obj.sort() == Node:
+            if meth == "deepcopy":
+                if self._copy_of(obj) is not None:
+                    raise Unsupported("copy of a copy")
+                # contract of deepcopy: an equal copy of the subtree -- same branch length
+                eng.state["LENC"] = z3.Store(eng.state["LENC"], obj, LEN0(obj))
+                return COPY(obj)
+            if meth == "_default_tree_constructor":
+                return Opaque("constructor")
+        if isinstance(obj, SymSeq) and not isinstance(obj, KidsSeq):
+            if meth == "append":
+                obj.arr = z3.Store(obj.arr, obj.length, args[0])
+                obj.length = obj.length + 1
+                return None
+            if meth == "__len__":
+                return obj.length
+        if isinstance(obj, SymSeq) and meth == "__len__":
+            return obj.length
+        if isinstance(obj, list) and meth == "append":
+            obj.append(args[0])
+            return None
+        return super().call_method(eng, obj, meth, args, kw, env)
+
+    def call_value(self, eng, fn, args, kw, env):
+        if isinstance(fn, Opaque) and fn.tag == "constructor":
+            return Opaque("tree", edge=args[0], children=args[1])
+        return super().call_value(eng, fn, args, kw, env)
+
+    def subscript(self, eng, obj, idx):
+        store = isinstance(idx, tuple) and idx and isinstance(idx[0], str) and idx[0] == "store"
+        if isinstance(obj, SymSeq) and not store:
+            i = idx if is_sym(idx) else z3.IntVal(idx)
+            if not is_sym(idx) and idx < 0:
+                i = obj.length + idx
+            eng.require("noexcept:list-index-in-range", z3.And(0 <= i, i < obj.length))
+            return obj.at(i)
+        return super().subscript(eng, obj, idx)
+
+    def truth(self, eng, v):
+        if isinstance(v, SymSeq):
+            return eng.truth(v.length != 0)
+        return super().truth(eng, v)
+
+
+def _as_seq(v):
+    """new_children / kept as (array, length), whether still a Python list or already symbolic"""
+    if isinstance(v, SymSeq):
+        return v.arr, v.length
+    arr = z3.K(I, z3.Const("no_node", Node))
+    for i, x in enumerate(v):
+        arr = z3.Store(arr, i, x)
+    return arr, z3.IntVal(len(v))
+
+
+def run_unrooted(chk):
+    name = "unrooted"
+    fn = "core.tree.TreeNode.unrooted"
+    node = extract.get(FILE, "TreeNode.unrooted")
+    funcs = {name: node}
+    chk.function(FILE, "TreeNode.unrooted", "P")
+    if len(loop_nodes(node)) != 2:
+        chk.undecided.append(f"{fn}: expected two loops (children, grandchildren)")
+        return
+    root = z3.Const("root", Node)
+    t, k = z3.Ints("t k")
+    x, y = z3.Consts("x y", Node)
+    pre_common = [
+        z3.ForAll([x], NK(x) >= 0),
+        z3.ForAll([x], LEN0(x) > 0),                                    # positive branch lengths
+        z3.ForAll([x, y], z3.Implies(COPY(x) == COPY(y), x == y)),      # distinct subtrees have distinct copies
+        # the nodes form a tree: a child knows its parent and its index, and lies one level deeper
+        z3.ForAll([x, k], z3.Implies(z3.And(0 <= k, k < NK(x)),
+                                     z3.And(PAR(KID(x, k)) == x, IDX(KID(x, k)) == k, DEPTH(KID(x, k)) == DEPTH(x) + 1))),
+    ]
+    LENC0 = z3.Const("lenc0", z3.ArraySort(Node, R_))
+
+    def outer_inv(env, j):
+        # degree >= 3: no expansion; new_children[t] = kept[t] = copy(kid t), lengths untouched
+        nc_arr, nc_len = _as_seq(env["new_children"])
+        kp_arr, kp_len = _as_seq(env["kept"])
+        need = env["need_to_expand"]
+        need = need if is_sym(need) else z3.BoolVal(bool(need))
+        lenc = ENG[0].state["LENC"]
+        return z3.And(nc_len == j, kp_len == j, z3.Not(need), z3.BoolVal(env["collapsed_length"] is None),
+                      z3.ForAll([t], z3.Implies(z3.And(0 <= t, t < j),
+                                                z3.And(z3.Select(nc_arr, t) == COPY(KID(root, t)),
+                                                       z3.Select(kp_arr, t) == COPY(KID(root, t)),
+                                                       z3.Select(lenc, KID(root, t)) == LEN0(KID(root, t))))))
+
+    def inner_inv(env, m):
+        # the grandchildren copied so far follow the prefix that was there when the loop began
+        nc_arr, nc_len = _as_seq(env["new_children"])
+        pre_arr, pre_len = env["__prefix"]
+        old = env["oldnode"]
+        lenc = ENG[0].state["LENC"]
+        return z3.And(nc_len == pre_len + m,
+                      z3.ForAll([t], z3.Implies(z3.And(0 <= t, t < pre_len), z3.Select(nc_arr, t) == z3.Select(pre_arr, t))),
+                      z3.ForAll([t], z3.Implies(z3.And(0 <= t, t < m), z3.And(
+                          z3.Select(nc_arr, pre_len + t) == COPY(KID(old, t)),
+                          z3.Select(lenc, KID(old, t)) == LEN0(KID(old, t))))),
+                      # frame: only the copies of this node's children were touched
+                      z3.ForAll([x], z3.Implies(PAR(x) != old, z3.Select(lenc, x) == z3.Select(env["__lenc_pre"], x))))
+
+    def inner_ghost_init(env):
+        env["__prefix"] = _as_seq(env["new_children"])
+        env["__lenc_pre"] = ENG[0].state["LENC"]
+
+    ENG = [None]
+    hv = {"LENC": lambda old: z3.FreshConst(z3.ArraySort(Node, R_), "lenc")}
+    outer = dict(invariant=outer_inv, modifies=["new_children", "kept"], havoc_state=hv,
+                 havoc={"new_children": lambda old: SymSeq.fresh("new_children", Node), "kept": lambda old: SymSeq.fresh("kept", Node)})
+    inner = dict(invariant=inner_inv, modifies=["new_children"], ghost_init=inner_ghost_init, havoc_state=hv,
+                 havoc={"new_children": lambda old: SymSeq.fresh("new_children", Node)})
+
+    configs = []
+    nroot = z3.Int("n_root_children")
+    configs.append(("degree>=3", KidsSeq(root), [NK(root) >= 3]))
+    for deg in (0, 1, 2):
+        configs.append((f"degree={deg}", [KID(root, i) for i in range(deg)], [NK(root) == deg]))
+
+    for cname, kids, extra in configs:
+        hooks = TreeHooks(funcs, {(name, 0): outer, (name, 1): inner})
+        orig_ga = hooks.get_attr
+
+        def get_attr(eng, obj, attr, kids=kids, orig_ga=orig_ga):
+            if is_sym(obj) and obj.sort() == Node and attr == "children" and z3.eq(obj, root):
+                return kids
+            return orig_ga(eng, obj, attr)
+        hooks.get_attr = get_attr
+        eng = Engine(funcs, hooks, prune_logic=None, prune_ms=300)
+        ENG[0] = eng
+        pre = pre_common + extra
+
+        def entry(e):
+            e.state["current_function"] = name
+            e.state["LENC"] = LENC0
+            r = e.call(name, dict(self=root))
+            e.state["LEN_final"] = e.state["LENC"]
+            return r
+        try:
+            paths = eng.run(entry, pre)
+        except Unsupported as ex:
+            chk.undecided.append(f"{fn}/cfg=({cname}): UNSUPPORTED {ex}")
+            continue
+        base = f"{fn}/cfg=({cname})"
+        chk.obligation(f"{base}/cover", "cover", cover_thunk(extra + [NK(KID(root, 0)) >= 0]), function=fn)
+        n_post = 0
+        for kk, p in enumerate(paths):
+            for j_, nm in enumerate(getattr(p, "inline", [])):
+                kind = nm.split(":")[0]
+                chk.discharged_inline(f"{base}/{nm}/path={kk}.{j_}", kind if kind.startswith("inv") else "noexcept", function=fn)
+            for nm, pc, cond in p.obligations:
+                kind = nm.split(":")[0]
+                chk.obligation(f"{base}/{nm}/path={kk}", kind if kind.startswith("inv") else "noexcept",
+                               smt_thunk(pc, cond, timeout=30, logic=None), function=fn,
+                               key=f"C09/{fn}/{nm.split('#')[0]}", replayer=_replay_unrooted)
+            if p.outcome == "raise":
+                chk.obligation(f"{base}/noexcept/path={kk}", "noexcept", smt_thunk(p.pc, z3.BoolVal(False), 20, logic=None),
+                               function=fn, key=f"C09/{fn}/noexcept", replayer=_replay_unrooted)
+            if p.outcome != "return":
+                continue
+            n_post += 1
+            res = p.value
+            LENF = p.state.get("LEN_final")
+            if not (isinstance(res, Opaque) and res.tag == "tree") or LENF is None:
+                goal = z3.BoolVal(False)
+            else:
+                arr, ln = _as_seq(res.attrs["children"])
+                Lf = lambda nd: z3.Select(LENF, nd.arg(0))           # nd is copy(u): its length is LENC[u]
+                c0, c1 = KID(root, 0), KID(root, 1)
+                i, j = z3.Ints("gi gj")
+                deg = NK(root)
+                # spec: what the children of the new root must be, by shape of the old root
+                keep_all = z3.And(ln == deg, z3.ForAll([t], z3.Implies(z3.And(0 <= t, t < deg), z3.And(
+                    z3.Select(arr, t) == COPY(KID(root, t)), Lf(COPY(KID(root, t))) == LEN0(KID(root, t))))))
+                # degree 2, first child internal: its children, then the other child carrying both root-edge lengths
+                a_first = z3.And(ln == NK(c0) + 1,
+                                 z3.ForAll([t], z3.Implies(z3.And(0 <= t, t < NK(c0)), z3.And(
+                                     z3.Select(arr, t) == COPY(KID(c0, t)), Lf(COPY(KID(c0, t))) == LEN0(KID(c0, t))))),
+                                 z3.Select(arr, NK(c0)) == COPY(c1), Lf(COPY(c1)) == LEN0(c1) + LEN0(c0))
+                # degree 2, first child a tip, second internal: the tip first (carrying both lengths), then the grandchildren
+                a_second = z3.And(ln == NK(c1) + 1, z3.Select(arr, 0) == COPY(c0), Lf(COPY(c0)) == LEN0(c0) + LEN0(c1),
+                                  z3.ForAll([t], z3.Implies(z3.And(0 <= t, t < NK(c1)), z3.And(
+                                      z3.Select(arr, 1 + t) == COPY(KID(c1, t)), Lf(COPY(KID(c1, t))) == LEN0(KID(c1, t))))))
+                one_child = z3.And(ln == NK(c0), z3.ForAll([t], z3.Implies(z3.And(0 <= t, t < NK(c0)), z3.And(
+                    z3.Select(arr, t) == COPY(KID(c0, t)), Lf(COPY(KID(c0, t))) == LEN0(KID(c0, t))))))
+                structural = z3.And(
+                    z3.Implies(deg >= 3, keep_all),
+                    z3.Implies(z3.And(deg == 2, NK(c0) > 0), a_first),
+                    z3.Implies(z3.And(deg == 2, NK(c0) == 0, NK(c1) > 0), a_second),
+                    z3.Implies(z3.And(deg == 2, NK(c0) == 0, NK(c1) == 0), keep_all),
+                    z3.Implies(z3.And(deg == 1, NK(c0) > 0), one_child),
+                    z3.Implies(z3.And(deg == 1, NK(c0) == 0), keep_all),
+                    z3.Implies(deg == 0, ln == 0))
+                # the lemma the property states, for generic positions: path lengths between the subtrees below the old
+                # root are the path lengths between their copies below the new root
+                paths_kept = z3.And(
+                    z3.Implies(z3.And(deg == 2, NK(c0) > 0, 0 <= i, i < NK(c0)),
+                               # grandchild i of c0 <-> subtree c1: before L(g)+L(c0)+L(c1); after L(g')+L(c1')
+                               LEN0(KID(c0, i)) + LEN0(c0) + LEN0(c1) == Lf(COPY(KID(c0, i))) + Lf(COPY(c1))),
+                    z3.Implies(z3.And(deg == 2, NK(c0) > 0, 0 <= i, i < j, j < NK(c0)),
+                               LEN0(KID(c0, i)) + LEN0(KID(c0, j)) == Lf(COPY(KID(c0, i))) + Lf(COPY(KID(c0, j)))),
+                    z3.Implies(z3.And(deg == 2, NK(c0) == 0, NK(c1) > 0, 0 <= i, i < NK(c1)),
+                               LEN0(KID(c1, i)) + LEN0(c1) + LEN0(c0) == Lf(COPY(KID(c1, i))) + Lf(COPY(c0))),
+                    z3.Implies(z3.And(deg >= 3, 0 <= i, i < j, j < deg),
+                               LEN0(KID(root, i)) + LEN0(KID(root, j)) == Lf(COPY(KID(root, i))) + Lf(COPY(KID(root, j)))))
+                goal = z3.And(structural, paths_kept)
+            chk.obligation(f"{base}/post.new-root-children-and-path-lengths/path={kk}", "post",
+                           smt_thunk(p.pc, goal, timeout=60, logic=None), function=fn, key=f"C09/{fn}/post",
+                           replayer=_replay_unrooted)
+        if n_post == 0:
+            chk.error(f"{base}: no returning path")
+
+
+def _replay_unrooted(model):
+    """native: tip-to-tip distances of tree.unrooted() for every small root shape with distinct lengths"""
+    import itertools
+    import warnings
+    warnings.filterwarnings("ignore")
+    from cogent3 import make_tree
+    shapes = ["(a:1,b:2);", "(a:1,(b:2,c:3)x:4);", "((a:1,b:2)x:3,c:4);", "((a:1,b:2)x:3,(c:4,d:5)y:6);", "((a:1,b:2,c:7)x:3,d:4);",
+              "(a:1,b:2,c:3);", "((a:1,b:2)x:3,c:4,d:5);", "((a:1,b:2)x:3);", "((a:1,(b:2,e:8)z:9)x:3,(c:4,d:5)y:6);",
+              "((a:1,b:2)x:3,(c:4,d:5)y:6,(e:7,f:8)z:9,g:10);"]
+    for nw in shapes:
+        tr = make_tree(nw)
+        before = tr.get_distances()
+        try:
+            un = tr.unrooted()
+            after = un.get_distances()
+        except Exception as ex:
+            return {"failed": True, "witness": nw, "description": f"make_tree({nw!r}).unrooted() raises {type(ex).__name__}: {ex}"}
+        bad = {kk: (before[kk], after.get(kk)) for kk in before if abs(before[kk] - after.get(kk, float('nan'))) > 1e-12 or kk not in after}
+        if bad or len(un.children) < min(3, len(tr.get_tip_names())):
+            kk = sorted(bad)[0] if bad else None
+            return {"failed": True, "witness": nw,
+                    "description": f"make_tree({nw!r}).unrooted() = {un.get_newick(with_distances=True)}: "
+                                   + (f"d{kk} was {bad[kk][0]} and is {bad[kk][1]}" if bad else "root still has fewer than 3 children")}
+    return {"failed": False, "description": f"{len(shapes)} root shapes keep their tip-to-tip distances"}
 
 
 def run(chk):
-    chk.bounded("bounded.C09")
-    chk.level = "exploration"
-    chk.explanation = "bounded run-time contracts only; nothing proved"
-    chk.assume("no deductive obligation: recursive heap mutation is outside the VC generator's subset")
+    only = getattr(chk, "only", None)
+    if not only or "proof" in only:
+        chk.guard(run_unrooted, fallback=[_replay_unrooted])
+        chk.discharge()
+    chk.assume("assumed contract: node.deepcopy(constructor) returns a fresh node standing for an equal copy of the subtree "
+               "(same branch length, same descendants); proved part = one level of the induction over tree depth")
+    chk.assume("not decided by proof: unrooted_deepcopy / rooted_at / rooted_with_tip / root_at_midpoint, get_sub_tree, sorting, "
+               "newick and JSON round trips, tree distances (recursive heap mutation, string parsing)")
+    if not only or "bounded" in only:
+        chk.bounded("bounded.C09")
+    chk.level = "other" if any(o.status == "discharged" for o in chk.obligations) else "exploration"
+    chk.explanation = ("TreeNode.unrooted proved for children / grandchildren lists of any length and all positive lengths "
+                       "(structural postcondition + path-length lemma for generic positions; loop invariants, smt); all other "
+                       "transformations, round trips and distances are bounded run-time contracts")
